@@ -13,7 +13,7 @@ R-iife: the wrapper `(||{ #(#queries)* })()` is removed and the blocks become th
 """
 import re
 from . import rustscan as rs
-from .extract import ExtractError, add_markers, strip_markers, find_blocks, find_fns
+from .extract import ExtractError, add_markers, strip_markers, find_blocks, find_fns, Log
 
 
 def fn_body(raw, msk, name):
@@ -31,6 +31,67 @@ def quote_arg_after(raw, msk, start, end, what):
     return raw[m.end():close], close
 
 
+def arm_extent(msk, after_arrow, limit):
+    """extent (start, end) of the expression of a match arm whose `=>` ends at `after_arrow`: a block, or up to the `,` / `}` ending the arm"""
+    i = after_arrow
+    while i < limit and msk[i].isspace():
+        i += 1
+    if msk[i] == '{':
+        return i, rs.match_close(msk, i) + 1
+    d = 0
+    j = i
+    while j < limit:
+        ch = msk[j]
+        if ch in rs.OPEN:
+            d += 1
+        elif ch in rs.CLOSE:
+            d -= 1
+            if d < 0:
+                return i, j
+        elif ch == ',' and d == 0:
+            return i, j
+        j += 1
+    return i, limit
+
+
+_QUOTERS = {}
+
+
+def eval_arm(raw, msk, start, end, what, log):
+    """The token text an arm evaluates to.  `quote!( .. )` directly -> its argument; anything else (a call of a helper of the
+    generator, `let x = helper(); quote!(#x ..)`) is evaluated by the R-quote interpreter.  Never looks beyond the arm."""
+    txt = raw[start:end]
+    t = strip_markers(txt).strip()
+    if t.startswith('{') and t.endswith('}'):
+        inner = t[1:-1].strip()
+        m = re.match(r'^quote!\s*\(', inner)
+        if m and rs.match_close(rs.mask(inner), m.end() - 1) == len(inner) - 1:
+            return inner[m.end():-1].strip()
+    m = re.match(r'^quote!\s*\(', t)
+    if m and rs.match_close(rs.mask(t), m.end() - 1) == len(t) - 1:
+        return t[m.end():-1].strip()
+    from .quoteinst import Quoter
+    from .extract import Cfg
+    q = _QUOTERS.get(id(raw))
+    if q is None:
+        q = _QUOTERS[id(raw)] = Quoter(raw, Cfg(), log, 'macros/src/generate/query.rs')
+    q.log = log
+    try:
+        val = q.eval_expr(txt, {})
+        if not isinstance(val, str):
+            raise ExtractError('R-tmpl: arm %s does not evaluate to tokens' % what)
+    except ExtractError:
+        # locals of the arm that the interpreter does not know (e.g. the bound pattern variable): when the arm contains exactly
+        # one quote!, its argument is taken as text and the caller fills the holes (unfilled holes are an extraction error)
+        qs = list(re.compile(r'quote!\s*\(').finditer(msk, start, end))
+        if len(qs) != 1:
+            raise
+        close = rs.match_close(msk, qs[0].end() - 1)
+        return strip_markers(raw[qs[0].end():close]).strip()
+    log.rule('R-quote', 'arm %s evaluated by the interpreter' % what)
+    return strip_markers(val).strip()
+
+
 def let_match_arm(raw, msk, f, var, arm):
     m = re.compile(r'let\s+%s\s*=\s*match\s+\w+\s*\{' % re.escape(var)).search(msk, f.body_open, f.body_close)
     if not m:
@@ -39,22 +100,23 @@ def let_match_arm(raw, msk, f, var, arm):
     a = re.compile(re.escape(arm) + r'\s*=>').search(msk, m.end(), bclose)
     if not a:
         raise ExtractError('R-tmpl: arm %s of %s not found' % (arm, var))
-    txt, _ = quote_arg_after(raw, msk, a.end(), bclose, '%s/%s' % (var, arm))
-    return strip_markers(txt).strip()
+    s0, e0 = arm_extent(msk, a.end(), bclose)
+    return eval_arm(raw, msk, s0, e0, '%s/%s' % (var, arm), Log())
 
 
-def bind_text(raw, msk, f, arm, sub=None):
-    a = re.compile(r'ParseQueryParamType::%s\b' % re.escape(arm)).search(msk, f.body_open, f.body_close)
+def bind_text(raw, msk, f, arm, sub=None, log=None):
+    a = re.compile(r'ParseQueryParamType::%s\b[^=]*?=>' % re.escape(arm)).search(msk, f.body_open, f.body_close)
     if not a:
         raise ExtractError('R-tmpl: arm %s not found in %s' % (arm, f.name))
-    start = a.end()
+    s0, e0 = arm_extent(msk, a.end(), f.body_close)
     if sub:
-        s = re.compile(re.escape(sub) + r'\s*=>').search(msk, start, f.body_close)
+        s = re.compile(r'\b' + re.escape(sub) + r'\s*=>').search(msk, s0, e0)
         if not s:
             raise ExtractError('R-tmpl: sub-arm %s of %s not found' % (sub, arm))
-        start = s.end()
-    txt, _ = quote_arg_after(raw, msk, start, f.body_close, arm)
-    return strip_markers(txt).strip()
+        s1, e1 = arm_extent(msk, s.end(), e0)
+        txt, _ = quote_arg_after(raw, msk, s1, e1, '%s/%s' % (arm, sub))
+        return strip_markers(txt).strip()
+    return eval_arm(raw, msk, s0, e0, '%s of %s' % (arm, f.name), log or Log())
 
 
 def template_blocks(raw, gen_fn, bind_fn, archetypes, params, decide_prefix, log, mode='Mut'):
@@ -75,7 +137,7 @@ def template_blocks(raw, gen_fn, bind_fn, archetypes, params, decide_prefix, log
             t = bind_text(raw, msk, bf, 'Component', 'true' if is_mut else 'false')
             t = t.replace('#ident', comp)
         else:
-            t = bind_text(raw, msk, bf, kind)
+            t = bind_text(raw, msk, bf, kind, log=log)
         binds.append(t)
     # the wrapper: Ok(quote!( (||{#(#queries)*})() ))
     w = re.compile(r'\(\s*\|\|\s*\{\s*#\(\s*#queries\s*\)\s*\*\s*\}\s*\)\s*\(\s*\)').search(msk, f.body_open, f.body_close)
@@ -139,7 +201,7 @@ def find_template(raw, world_name, archetypes, params, decide_prefix, key_expr, 
         if kind == 'Component' and mode == 'Borrow':
             t = bind_text(raw, msk, bf, 'Component', 'true' if is_mut else 'false')
         else:
-            t = bind_text(raw, msk, bf, kind)
+            t = bind_text(raw, msk, bf, kind, log=log)
         if kind == 'Component':
             t = t.replace('#ident', comp)
         binds.append(t)
